@@ -20,7 +20,9 @@ From CG3 Require Import Model.IndelMapFixed Model.FeatureMap Spec.FeatureMapSpec
 From CG3 Require Import Proofs.IndelMapProofs Proofs.IndelMapOps Proofs.IndelMapSlice Proofs.IndelMapIndex
                         Proofs.IndelMapMain Proofs.IndelMapBounded Proofs.IndelMapFixedProofs
                         Proofs.IndelMapMerge Proofs.IndelMapShared Proofs.IndelMapJoin Proofs.FeatureMapProofs
-                        Proofs.FeatureMapCovInv.
+                        Proofs.FeatureMapCovInv Proofs.IndelMapGenEq Proofs.IndelMapGenMain.
+From CG3gen Require Import IndelMapGen.
+Import G.
 
 (** * construction: string -> map -> string *)
 
@@ -311,6 +313,67 @@ Theorem fm_covered_spec : forall fm : fmap, in_parent fm = true ->
   exists c, fm_covered fm = Ok c /\ den c = map Some (positions fm) /\ separated (-1) (fspans c) = true /\
             fplen c = fplen fm /\ in_parent c = true.
 Proof. exact FeatureMapCovInv.fm_covered_spec. Qed.
+
+(** * translator tie: the same headlines about the kernel REGENERATED from the current
+    text of src/cogent3/core/location.py (coq/gen/IndelMapGen.v, module [G], by
+    harness/translators/indelmap.py).  Proofs/IndelMapGenEq.v proves every generated
+    function equal to the model function ([*_eq]); these corollaries are what the
+    other theorems of this file say about the code as it is written today. *)
+
+Theorem gen_constructor : forall (gp cl l : list Z) (plen : Z),
+  g_post_init_cum gp cl plen = post_init gp cl plen /\ g_post_init_len gp l plen = post_init_lengths gp l plen.
+Proof. exact IndelMapGenMain.gen_constructor. Qed.
+
+Theorem gen_len_spec : forall m : imap, WF m -> g_len m = zlen (abs m).
+Proof. exact IndelMapGenMain.gen_len_spec. Qed.
+
+Theorem gen_seq_index_spec : forall m : imap, WF m -> forall x : Z, 0 <= x <= g_len m ->
+  g_get_seq_index m x = Ok (residues (firstn (Z.to_nat x) (abs m))).
+Proof. exact IndelMapGenMain.gen_seq_index_spec. Qed.
+
+Theorem gen_align_index_spec : forall (m : imap) (s : Z), WF m -> 0 <= s < parent_length m ->
+  exists a, g_get_align_index m s false = Ok a /\ is_align_index (abs m) s a.
+Proof. exact IndelMapGenMain.gen_align_index_spec. Qed.
+
+Theorem gen_align_stop_spec : forall (m : imap) (s : Z), WF m -> 0 <= s <= parent_length m ->
+  exists a, g_get_align_index m s true = Ok a /\ is_align_stop (abs m) s a.
+Proof. exact IndelMapGenMain.gen_align_stop_spec. Qed.
+
+Theorem gen_slice_spec : forall (m : imap) (oa ob : option Z), WF m ->
+  let a := py_bound (g_len m) 0 oa in
+  let b := py_bound (g_len m) (g_len m) ob in
+  0 <= a -> 0 <= b ->
+  exists m', g_getitem_slice m oa ob = Ok m' /\ WF m' /\ abs m' = msub (abs m) a (Z.max a b).
+Proof. exact IndelMapGenMain.gen_slice_spec. Qed.
+
+Theorem gen_slice_from_mask : forall (k : list bool) (a b : Z), 0 <= a -> 0 <= b ->
+  g_getitem_slice (from_mask k) (Some a) (Some b) = Ok (from_mask (msub k a (Z.max a b))).
+Proof. exact IndelMapGenMain.gen_slice_from_mask. Qed.
+
+Theorem gen_add_spec : forall m1 m2 : imap, WF m1 -> WF m2 ->
+  exists m', g_add m1 m2 = Ok m' /\ WF m' /\ abs m' = abs m1 ++ abs m2.
+Proof. exact IndelMapGenMain.gen_add_spec. Qed.
+
+Theorem gen_add_from_mask : forall k1 k2 : list bool, g_add (from_mask k1) (from_mask k2) = Ok (from_mask (k1 ++ k2)).
+Proof. exact IndelMapGenMain.gen_add_from_mask. Qed.
+
+Theorem gen_mul_spec : forall (m : imap) (s : Z), WF m -> 1 <= s ->
+  exists m', g_mul m s = Ok m' /\ WF m' /\ abs m' = stretch s (abs m).
+Proof. exact IndelMapGenMain.gen_mul_spec. Qed.
+
+Theorem gen_nucleic_reversed_spec : forall m : imap, WF m ->
+  exists m', g_nucleic_reversed m = Ok m' /\ WF m' /\ abs m' = rev (abs m).
+Proof. exact IndelMapGenMain.gen_nucleic_reversed_spec. Qed.
+
+Theorem gen_gap_align_coordinates_spec : forall m : imap, WF m -> g_get_gap_align_coordinates m = gap_runs (abs m).
+Proof. exact IndelMapGenMain.gen_gap_align_coordinates_spec. Qed.
+
+Theorem gen_gap_coordinates_spec : forall k : list bool, g_get_gap_coordinates (from_mask k) = gap_insertions k.
+Proof. exact IndelMapGenMain.gen_gap_coordinates_spec. Qed.
+
+Theorem gen_get_coordinates_bounded_partial : forall k : list bool, (length k <= 10)%nat ->
+  nonempty (g_get_coordinates (from_mask k)) = nonempty (seq_segments k).
+Proof. exact IndelMapGenMain.gen_get_coordinates_bounded. Qed.
 
 (** * the hypotheses are satisfiable: concrete instances *)
 Theorem wf_example : WF (from_mask [false; true; true; false; true; false; false]).
